@@ -1,6 +1,7 @@
 #!/bin/bash
 # targeted: the checks of the properties anchored in the touched file
 cd /verif
+DIR=${1:-/verif/seeded/refactors}
 declare -A MAP
 MAP[cache.go]="C16 C05 C15"
 MAP[parse.go]="C06 C10 C17 C14"
@@ -9,8 +10,8 @@ MAP[query.go]="C01 C04 C11 C12 C02"
 MAP[func.go]="C09 C04 C05 C03"
 MAP[operator.go]="C07 C08 C02"
 MAP[xpath.go]="C04 C05 C12"
-for n in $(seq -w 1 14); do
-  f=/verif/seeded/refactors/r$n.diff
+for f in $DIR/r*.diff; do
+  n=$(basename $f .diff | tr -d r)
   [ -z "$(git -C /repo status --porcelain)" ] || { echo "repo dirty"; exit 1; }
   git -C /repo apply $f 2>/dev/null || { echo "r$n does-not-apply-on-current-HEAD"; continue; }
   files=$(grep '^+++ b/' $f | sed 's#+++ b/##')
@@ -22,8 +23,8 @@ for n in $(seq -w 1 14); do
     bin/check $p --tier quick > /tmp/refres_r${n}_$p.log 2>&1; rc=$?
     [ $rc -ne 0 ] && res="$res $p($(grep -c no-failing-input-found /tmp/refres_r${n}_$p.log))"
   done
-  git -C /repo checkout -- .
+  git -C /repo apply -R $f || { git -C /repo checkout -- .; git -C /repo clean -fdq; }
   git -C /verif checkout -- evidence lean/XPathV/Generated facts.json 2>/dev/null
-  echo "r$n [$files] checks:[$props] alarms:[$res ] $(cat /verif/seeded/refactors/r$n.txt | cut -c1-90)"
+  echo "r$n [$files] checks:[$props] alarms:[$res ] $(cut -c1-90 $DIR/r$n.txt)"
 done
 echo refactors-done
